@@ -570,6 +570,10 @@ void run(Src &src, Case &c)
     // objects are placed at the SAME addresses with another scenario and analysed by the SAME Analyser. 7 = no recycling.
     int recycleSel = static_cast<int>(src.below(8));
     int scenario2 = recycleSel == 7 ? -1 : (scenario + 1 + recycleSel % 5) % 6;
+    // second history (read after it): short-lived variables that are NOT of the analysed model are asked, destroyed, and
+    // unrelated variables created at the same two addresses are asked again. bit0/bit1: which sequences; bit2: the
+    // short-lived ones belong to another model; 7 = none.
+    int foreignSel = static_cast<int>(src.below(8));
 
     // distinct objects (a pair may share one object with the other pair)
     std::vector<u64> addrs;
@@ -655,6 +659,9 @@ void run(Src &src, Case &c)
          << " bytes, sizeof(Variable)=" << kObject << "\nmodelled 64-bit Cantor keys: key(A,B)=" << hex(modelledKey(q.a, q.b)) << " key(C,D)=" << hex(modelledKey(q.c, q.d)) << (modelled ? " (equal)" : "")
          << "\nscenario: " << scenarioNames[scenario] << (viaPadding ? " (first equivalence through a third variable)" : "") << ", extra variables=" << nPad << ", component order=affine(" << compOrder.a << "," << compOrder.b
          << "), first asked pair #" << firstPair << ", analyser models=" << (twoModels ? 2 : 1) << ", interleave=" << interleave;
+    if (foreignSel != 7) {
+        text << "\nforeign variables: sequences=" << ((foreignSel & 3) == 0 ? 3 : (foreignSel & 3)) << ((foreignSel & 4) != 0 ? " (variables of another model)" : " (never added to a model)");
+    }
     if (scenario2 >= 0) {
         text << "\nthen: model released, new Variable objects at the same addresses, scenario: " << scenarioNames[scenario2] << ", analysed by the first Analyser again";
     }
@@ -665,6 +672,7 @@ void run(Src &src, Case &c)
     c.cls(std::string("scenario:") + scenarioNames[scenario]);
     if (viaPadding) c.cls("indirect-equivalence");
     if (scenario2 >= 0) c.cls("history:addresses-recycled");
+    if (foreignSel != 7) c.cls("history:foreign-variables");
     if (nPlaced < 4) c.cls("shared-object");
     if (modelled) c.cls("modelled-key-collision");
     if (!q.ok) {
@@ -677,7 +685,14 @@ void run(Src &src, Case &c)
     }
 
     Pages pages; // declared first: released after every object placed in it has been destroyed
-    if (!pages.map(addrs)) {
+    // two more slots (below every placed object) for the short-lived variables
+    const u64 slot1 = ((*std::min_element(addrs.begin(), addrs.end())) & ~(kPage - 1)) - 2 * kPage + 0x100, slot2 = slot1 + 0x40;
+    std::vector<u64> toMap = addrs;
+    if (foreignSel != 7) {
+        toMap.push_back(slot1);
+        toMap.push_back(slot2);
+    }
+    if (!pages.map(toMap)) {
         c.count("excluded:address-not-mappable");
         c.cls("not-mappable");
         return;
@@ -835,6 +850,75 @@ void run(Src &src, Case &c)
         c.count("queries:areEquivalentVariables", asked);
         VP_CHECK(c, !anyInvalid, "C18.harness|valid-model-not-analysable", "every query answered correctly but the analysis failed:\n" << analysisNote << c.text);
 
+        // ---- history: variables that are not of the analysed model. The analyser model keeps only its own model alive;
+        // a pair of other variables may die and unrelated variables may be born at the same addresses.
+        if (foreignSel != 7) {
+            int seqs = (foreignSel & 3) == 0 ? 3 : (foreignSel & 3);
+            bool otherModel = (foreignSel & 4) != 0;
+            // one round: two variables at slot1/slot2, equivalent or not, asked in both argument orders, then destroyed
+            auto round = [&](bool equivalent, const char *label) -> bool {
+                ModelPtr other;
+                VariablePtr g1 = createAt(slot1, "g1"), g2 = createAt(slot2, "g2");
+                if (reinterpret_cast<u64>(g1.get()) != slot1 || reinterpret_cast<u64>(g2.get()) != slot2) {
+                    c.fail("C18.harness|placement", "short-lived variable not placed at its slot");
+                    return false;
+                }
+                if (otherModel) {
+                    other = Model::create("other");
+                    auto oc1 = Component::create("oc1"), oc2 = Component::create("oc2");
+                    oc1->addVariable(g1);
+                    oc2->addVariable(g2);
+                    other->addComponent(oc1);
+                    other->addComponent(oc2);
+                }
+                if (equivalent) {
+                    Variable::addEquivalence(g1, g2);
+                }
+                for (size_t mIdx = 0; mIdx < ams.size(); ++mIdx) {
+                    for (int rep = 0; rep < 2; ++rep) {
+                        for (int dir = 0; dir < 2; ++dir) {
+                            bool got = ams[mIdx]->areEquivalentVariables(dir == 0 ? g1 : g2, dir == 0 ? g2 : g1);
+                            ++asked;
+                            if (got != equivalent) {
+                                c.fail(std::string("C18.addr-foreign|") + label + "|" + (equivalent ? "false-negative:direct" : "false-positive"),
+                                       std::string("AnalyserModel::areEquivalentVariables on two variables that are ") + (otherModel ? "of another model" : "in no model") + " (" + label + ") at " + hex(slot1) + ", " + hex(slot2) + " = "
+                                           + std::to_string(got) + ", expected " + std::to_string(equivalent) + "\n" + c.text);
+                                return false;
+                            }
+                        }
+                    }
+                }
+                bool has = g1->hasEquivalentVariable(g2, true);
+                if (has != equivalent) {
+                    c.fail(std::string("C18.addr-has|foreign|") + label, "hasEquivalentVariable on the short-lived pair = " + std::to_string(has));
+                    return false;
+                }
+                std::weak_ptr<Variable> w1 = g1, w2 = g2;
+                g1.reset();
+                g2.reset();
+                other.reset();
+                if (!w1.expired() || !w2.expired()) {
+                    c.fail("C18.harness|not-released", "a short-lived variable is still alive");
+                    return false;
+                }
+                return true;
+            };
+            if ((seqs & 1) != 0 && !(round(true, "first:equivalent") && round(false, "reborn:unrelated-after-equivalent"))) {
+                return;
+            }
+            if ((seqs & 2) != 0 && !(round(false, "first:unrelated") && round(true, "reborn:equivalent-after-unrelated"))) {
+                return;
+            }
+            // the model's own answers are unaffected
+            for (int i = 0; i < nAll; ++i) {
+                for (int j = 0; j < nAll; ++j) {
+                    if (!checkAm(static_cast<size_t>((i + j) % static_cast<int>(ams.size())), i, j)) {
+                        return;
+                    }
+                }
+            }
+        }
+
         // ---- history: release the model, put new objects at the same addresses, analyse with the first Analyser again
         if (scenario2 >= 0) {
             AnalyserPtr reused = analysers[0];
@@ -918,7 +1002,8 @@ Property property = {
     "(solved from n(32q+32n+1) == f mod 2^59, both a table of spans below 1 MiB and tape-chosen larger steps, also with one object of each pair in the heap and one in the mmap area). A valid model (one variable per component, "
     "one initial value per class; scenarios A~B, C~D, both, none, crosswise, A~B~C, optionally through a third variable) is analysed for real and all ordered pairs are asked on one or two analyser models, the two pairs first in "
     "a tape-chosen order. History: the model is then released (the analyser first analyses a dummy model so that it lets go), new Variable objects are placed at the same addresses with a different scenario, "
-    "analysed by the first Analyser again and by a fresh one; all pairs are asked on both models and the verdicts must agree. Oracle: the harness's union-find. Every mappable quadruple is non-trivial. Distinct = hash of family, addresses and scenario.",
+    "analysed by the first Analyser again and by a fresh one (before that, pairs of short-lived variables that are in no model / in another model are asked on the analyser models, destroyed, "
+    "and unrelated variables born at the same two addresses are asked again: equivalent then unrelated, unrelated then equivalent); all pairs are asked on both models and the verdicts must agree. Oracle: the harness's union-find. Every mappable quadruple is non-trivial. Distinct = hash of family, addresses and scenario.",
     run,
     nullptr,
     {"no sanitizer in this harness (the allocator is replaced)", "addresses outside the constructed families are not covered: an arbitrary lossy key would need luck of order 2^-64 per pair",
